@@ -35,11 +35,11 @@ def stages(ctx):
 
 
 def _strategy(ctx):
-    return st.builds(lambda present, form, order, noangles, indir, spell, missing: {"present": present, "form": form, "order": order, "noangles": noangles,
-                                                                                    "indir": indir, "spell": spell, "missing": missing},
+    return st.builds(lambda present, form, order, noangles, indir, spell, missing, once_cmd: {"present": present, "form": form, "order": order, "noangles": noangles,
+                                                                                              "indir": indir, "spell": spell, "missing": missing, "once_cmd": once_cmd},
                      st.lists(st.sampled_from(DIRS), min_size=0, max_size=6, unique=True), st.sampled_from(["quote", "angle"]),
                      st.permutations(["i1", "i2", "s1", "s2"]), st.booleans(), st.booleans(),
-                     st.lists(st.integers(0, len(SPELLINGS) - 1), min_size=0, max_size=4), st.booleans())
+                     st.lists(st.integers(0, len(SPELLINGS) - 1), min_size=0, max_size=4), st.booleans(), st.booleans())
 
 
 def model_lookup(case):
@@ -74,7 +74,8 @@ def judge(case, ctx):
         # once-only header and its spellings
         os.makedirs(os.path.join(d, "od"), exist_ok=True)
         once_dir = os.path.join(d, "sub") if case["indir"] else d
-        run.write(os.path.join(once_dir, "once.h"), "#pragma once\n#ifdef SEEN1\n#define SEEN2\n#endif\n#define SEEN1\n")
+        run.write(os.path.join(once_dir, "once.h"), "#pragma once\n#ifdef SEEN1\n#define SEEN2\n#endif\n#define SEEN1\n"
+                  "#include <verif_prelude.h>\nBEGIN_PUBLISH\nint once_fn(int a);\nEND_PUBLISH\n")
         os.makedirs(os.path.join(once_dir, "od"), exist_ok=True)
         if not os.path.lexists(os.path.join(once_dir, "lnk")):
             os.symlink(".", os.path.join(once_dir, "lnk"))
@@ -99,7 +100,10 @@ def judge(case, ctx):
         for name in case["order"]:
             search.append(("-I" if name.startswith("i") else "-S") + name)
         opts = ["-c", "-fnames"] + (["-noangles"] if case["noangles"] else [])
-        r = igate.interrogate(d, [mainrel], opts=opts, extra_search=search)
+        # the once-only header may itself be named on the command line, after the file that includes it: it is then the
+        # user's own file however the #include that reached it first spelled its path
+        cmdline = [mainrel] + ([("sub/once.h" if case["indir"] else "once.h")] if case.get("once_cmd") else [])
+        r = igate.interrogate(d, cmdline, opts=opts, extra_search=search)
         if r.abnormal:
             return Outcome(ok=False, key="crash:" + r.kind(), detail="interrogate died (%s): %s" % (r.kind(), r.err.decode("latin-1")[-300:]))
         if r.rc != 0:
@@ -136,6 +140,9 @@ def judge(case, ctx):
             sorted(owned), sorted(want_owned), winner, desc))
     if "main_fn" not in fnames:
         return Outcome(ok=False, key="ownership-main", detail="the command-line file's own declaration is not exported (%s)" % desc)
+    if case.get("once_cmd") and "once_fn" not in fnames:
+        return Outcome(ok=False, key="ownership-cmdline-once", detail="once.h is named on the command line but its published declaration is not exported "
+                       "(it was first reached through #include %s from %s)" % (spells, mainrel))
     if spells and arrays.get("seen_arr") != 1:
         return Outcome(ok=False, key="once", detail="a #pragma once header included as %s contributed more than once" % spells)
     ncand = len([x for x in case["present"] if x != "sub" or case["indir"]])
@@ -143,7 +150,7 @@ def judge(case, ctx):
     if (ncand >= 2 and winner is not None and winner != [x for x in case["order"] if x.startswith("i")][0]) or len(set(spells)) >= 3:
         nt.append("%s|%s|%s|%s|%s|%d" % (sorted(case["present"]), case["form"], case["order"], case["noangles"], case["indir"], len(set(spells))))
     return Outcome(ok=True, nontrivial=nt, classes=["form." + case["form"], "winner.%s" % winner, "noangles" if case["noangles"] else "angles",
-                                                   "spellings%d" % len(set(spells))] + (["missing"] if case["missing"] else []),
+                                                   "spellings%d" % len(set(spells))] + (["missing"] if case["missing"] else []) + (["once-on-cmdline"] if case.get("once_cmd") else []),
                    sample={"layout": desc, "winner": winner, "spellings": spells})
 
 
